@@ -115,7 +115,11 @@ def conversion_exprs(spellings_by_kind, quick):
         for s in sp:
             for t in targets:
                 for m in (MAGS[:4] if quick else MAGS):
-                    out.append("%s %s as %s" % (m, s, t))
+                    if m[0].isdigit():
+                        out.append("%s %s as %s" % (m, s, t))      # NUMBER UNIT needs a plain literal
+                # any magnitude, also negative and complex ones, enters through `as`
+                for m in ("(2+3*i)", "(0-1.5)", "(0.5-2*i)") if quick else MAGS:
+                    out.append("(%s as %s) as %s" % (m, s, t))
         # three-unit paths
         for a, b, c in itertools.islice(itertools.permutations(targets, 3), 0, 60 if quick else 2000):
             out.append("2.5 %s as %s as %s" % (a, b, c))
@@ -125,6 +129,9 @@ def conversion_exprs(spellings_by_kind, quick):
             if other != kind:
                 out.append("1 %s as %s" % (sp[0], gen.TARGET_UNITS[other][0]))
                 out.append("(1 %s) as %s" % (sp[-1], gen.TARGET_UNITS[other][-1]))
+        for a, b, c in itertools.islice(itertools.permutations(targets, 3), 0, 30 if quick else 500):
+            out.append("(((1.5+2*i) as %s) as %s) as %s" % (a, b, c))
+            out.append("(((1.5+2*i) as %s) as %s) as %s" % (a, b, a))
         for t in targets:
             out += ["3 as %s" % t, "(1+2*i) as %s" % t, "0 as %s" % t, "x as %s" % t, "1 + 2 as %s" % t, "2 * 3 %s as %s" % (t, targets[0])]
     return out
@@ -187,6 +194,11 @@ def matrix_exprs(rng, quick):
             out += ["transpose(%s)" % m, "transpose(transpose(%s))" % m, "-%s" % m, "%s * 2" % m, "(1+i) * %s" % m, "%s / 4" % m, "%s / 0" % m,
                     "|%s|" % m, "determinant(%s)" % m, "inverse(%s)" % m, "%s * inverse(%s)" % (m, m), "inverse(%s) * %s" % (m, m),
                     "%s + %s" % (m, m), "%s - %s" % (m, m), "%s ^ 2" % m, "2 / %s" % m, "%s %% 2" % m, "%s!" % m]
+    # scale classes: "refused exactly when the determinant is zero" must not depend on magnitude
+    for k in ["1e-3", "1e-8", "1e-9", "(1/134217728)", "1e-12", "1e-100", "1e-160", "1e8", "1e100", "(1e-9*i)", "0"]:
+        out += ["inverse([%s])" % k, "inverse([%s,0;0,%s])" % (k, k), "inverse([%s,0,0;0,%s,0;0,0,1])" % (k, k),
+                "[%s,0;0,%s] * inverse([%s,0;0,%s])" % (k, k, k, k), "determinant([%s,0;0,%s])" % (k, k),
+                "inverse([1,2;3,4] * %s)" % k, "inverse(identity(3) * %s)" % k]
     for n in range(1, 5 if quick else 6):
         for _ in range(6 if quick else 30):
             a = rand_matrix(rng, n, n, complex_=rng.random() < 0.3)
@@ -207,7 +219,8 @@ def matrix_exprs(rng, quick):
     return out
 
 
-ARG_VALUES = ["0", "1", "-1", "0.5", "-0.5", "2", "9007199254740993", "9007199254740991", "1e19", "-1e19", "1e999", "-1e999",
+BOUNDARY2 = ["0", "1", "-1", "6", "0.5", "1e999", "-1e999", "(1e999-1e999)", "i", "[7]", "1e19", "9007199254740993", "5 m", "sin"]
+ARG_VALUES = ["[0]", "[0,0;0,0]", "(0*i)", "0", "1", "-1", "0.5", "-0.5", "2", "9007199254740993", "9007199254740991", "1e19", "-1e19", "1e999", "-1e999",
               "(1e999-1e999)", "i", "(1+i)", "(2-3*i)", "(0.5+0.25*i)", "[7]", "[1,2;3,4]", "[1,2,3]", "[1,2;2,4]", "[1,2;3,4;5,6]",
               "5 m", "sin", "f", "12", "18", "-12", "4e9", "1e300", "0.3", "170", "3"]
 BUILTIN_NAMES = ["sin", "cos", "tan", "asin", "acos", "atan", "sinh", "cosh", "tanh", "asinh", "acosh", "atanh", "re", "im", "arg", "conj",
@@ -229,6 +242,11 @@ def builtin_exprs(rng, quick):
                 if name == "identity":
                     continue
                 out.append("%s(%s, %s)" % (name, a, b))
+        if name in ("log", "gcd", "lcm"):
+            # every ordered pair of domain-boundary values (quick and thorough)
+            for a in BOUNDARY2:
+                for b in BOUNDARY2:
+                    out.append("%s(%s, %s)" % (name, a, b))
         out.append("%s(1, 2, 3)" % name)
     for c in gen.CONSTS:
         out += [c, "%s + 0" % c, "%s(1)" % c]
